@@ -31,12 +31,17 @@ Imgs == UNION {UNION {UNION {
           : ct \in {LastT(tv), Min2(LastT(tv) + 1, MaxT)} }
           : tv \in UNION {Mono(n, 1) : n \in 0..(MaxLen - 1)} }
 \* AppendEntries requests for an image whose log has `len` entries
-AEReq(t, p, pt, c, ev) ==
+\* an entry of the request that has the index and term of an entry of the image IS that entry (Log Matching holds
+\* in every reachable world); all others carry a payload of their own
+ReqEnt(img, i, t) ==
+  LET S == {k \in 1..Len(img.log) : img.log[k][1] = i /\ img.log[k][2] = t}
+  IN IF S # {} THEN img.log[CHOOSE k \in S : TRUE] ELSE <<i, t, "cmd", "y" \o ToString(i) \o "t" \o ToString(t)>>
+AEReq(img, t, p, pt, c, ev) ==
   [term |-> t, prev |-> p, prevterm |-> pt, commit |-> c,
-   entries |-> [k \in 1..Len(ev) |-> <<p + k, ev[k], "cmd", "y" \o ToString(p + k) \o "t" \o ToString(ev[k])>>]]
+   entries |-> [k \in 1..Len(ev) |-> ReqEnt(img, p + k, ev[k])]]
 AEReqs(img, len) ==
   UNION {UNION {UNION {
-     { AEReq(t, p, pt, c, ev) : t \in {img.ct - 1, img.ct, img.ct + 1} \cap (1..(MaxT + 1)), c \in {0, 2, 9} }
+     { AEReq(img, t, p, pt, c, ev) : t \in {img.ct - 1, img.ct, img.ct + 1} \cap (1..(MaxT + 1)), c \in {0, 2, 9} }
      : ev \in UNION {Mono(n, IF pt = 0 THEN 1 ELSE pt) : n \in 0..2} }
      : pt \in (IF p = 0 THEN {0} ELSE Terms) }
      : p \in 0..(len + 1) }
